@@ -63,7 +63,7 @@ def judge(ck, prop, res, lines, world, ref, meta):
         batches = [list(p.batch_prios) for p in g.procs]
         cases.append({"op": "realign.run", "batches": batches, "events": g.events})
     lost = any(p.lost or getattr(p, "missing", 0) for g in groups for p in g.procs)
-    died = any(p.exitcode not in (0, None) for g in groups for p in g.procs)
+    died = any(p.code not in (0, None) and not p.stopped for g in groups for p in g.procs)
     timeouts_inflight = any(e["e"] == "pTimeout" for g in groups for e in g.events)
     replay = dict(meta, result=list(res), output=[l.split("\t")[0] for l in lines],
                   groups=[{"batches": c["batches"], "events": c["events"]} for c in cases])
@@ -303,10 +303,17 @@ def real_runs(ck, prop, tmp, inputs, n):
         nrec = rng.choice([3, 4, 5])
         bs = rng.choice([1, 2])
         cores = rng.choice([1, 2, 3])
+        if prop == "C13" and it == 0:
+            nrec, bs, cores = 4, 2, 2        # two workers in one round: the victim of the first run dies at once, holding the lock
         gaf, fasta, ref = inputs[nrec]
         death = None
         if prop == "C13":
-            death = {"first_prio": rng.randrange(0, nrec, bs), "k": rng.randint(0, bs + 1), "mode": rng.choice(["exit9", "sigkill", "exception"])}
+            # "sigkill-holding-lock": the worker is killed while it holds the write lock of the shared result queue, i.e. in the
+            # middle of delivering a result (K3): the surviving workers then block for ever when they deliver theirs
+            death = {"first_prio": rng.randrange(0, nrec, bs), "k": rng.randint(0, bs + 1),
+                     "mode": "sigkill-holding-lock" if it == 0 else rng.choice(["exit9", "sigkill", "exception", "sigkill-holding-lock"])}
+            if it == 0:
+                death.update(first_prio=0, k=0)
         seed = rng.randrange(1 << 30)
 
         def wrapped(seq_batch, qu, death=death, seed=seed):
@@ -321,9 +328,14 @@ def real_runs(ck, prop, tmp, inputs, n):
                             os._exit(9)
                         if death["mode"] == "sigkill":
                             os.kill(os.getpid(), signal.SIGKILL)
+                        if death["mode"] == "sigkill-holding-lock":
+                            qu._wlock.acquire()
+                            os.kill(os.getpid(), signal.SIGKILL)
                         sys.stderr = open(os.devnull, "w")     # the child's traceback is not interesting
                         raise RuntimeError("injected")
                     Q.n += 1
+                    if death and death["mode"] == "sigkill-holding-lock" and Q.n == 1:
+                        time.sleep(0.4)     # a survivor delivers its first result only after the victim has died
                     time.sleep(r.choice([0, 0, 0.01, 0.15]))
                     qu.put(x)
             return orig(seq_batch, Q())
